@@ -800,6 +800,12 @@ def _run_history(case):
                 o = rec['orig']
                 p = 'n' if o is None else (('e%d' if escapes(o) else 'i%d') % w.number(o) if isinstance(o, str)
                                            else 'X')
+                if rec['missing'] is True:
+                    p += '!'
+                elif rec['missing'] is not False:
+                    p += '?'
+                if rec['regenerated']:
+                    p += 'r'
             else:
                 p = '-'
             if 'G' in hops:
